@@ -300,7 +300,7 @@ def witness_env(sg, ob, ex):
         env[f] = Fraction(ob['flags'].get(f, 0))
         if f.endswith('_z0') and f[:-1] + '1' in ob['flags']:
             env[f] = 1 - Fraction(ob['flags'][f[:-1] + '1'])
-    for a, b in ob['eqs']:
+    for a, b in ob['eqs'] + ob.get('excl', []):
         env[a] = Fraction(py_eval(b, env, True))
     return env
 
@@ -338,21 +338,22 @@ PID_ACT = ('(kp * s + ki) * (1 + s * kd) + s * s * kd', 's * (1 + s * kd)')  # w
 LL2_TF = ('1 + s * T3 + s * s * T4', '1 + s * T1 + s * s * T2')
 
 
-def T(name, num, den, inp='u', out='B_y', flags=None, nz=(), eqs=(), doc='', wit=True):
+def T(name, num, den, inp='u', out='B_y', flags=None, nz=(), eqs=(), doc='', wit=True, excl=(), key=None, lean=True):
     """transfer-function obligation:  Laplace -> out * den = num * inp   (cleared denominators)"""
     return {'kind': 'tf', 'name': name, 'num': num, 'den': den, 'inp': inp, 'out': out, 'flags': flags or {},
-            'nz': list(nz), 'eqs': list(eqs), 'doc': doc, 'wit': wit}
+            'nz': list(nz), 'eqs': list(eqs), 'doc': doc, 'wit': wit, 'excl': list(excl), 'key': key, 'lean': lean}
 
 
-def S(name='steady', flags=None, nz=(), eqs=(), doc=''):
+def S(name='steady', flags=None, nz=(), eqs=(), doc='', excl=(), key=None):
     """steady-state obligation:  Init -> Balanced  (with the stated input restriction for integrating blocks)"""
-    return {'kind': 'steady', 'name': name, 'flags': flags or {}, 'nz': list(nz), 'eqs': list(eqs), 'doc': doc}
+    return {'kind': 'steady', 'name': name, 'flags': flags or {}, 'nz': list(nz), 'eqs': list(eqs), 'doc': doc,
+            'excl': list(excl), 'key': key, 'lean': True}
 
 
-def R(base, flags=None, subst=None, eqs=(), doc='', iff=False):
+def R(base, flags=None, subst=None, eqs=(), doc='', iff=False, excl=(), key=None):
     """limited_reduces: with the flags inside the limits, V.Laplace implies (iff: is equivalent to) base.Laplace"""
     return {'kind': 'reduces', 'name': 'limited_reduces', 'base': base, 'flags': flags or {}, 'subst': subst or {},
-            'eqs': list(eqs), 'doc': doc, 'iff': iff}
+            'eqs': list(eqs), 'doc': doc, 'iff': iff, 'excl': list(excl), 'key': key, 'lean': True}
 
 
 # SPEC[variant] = list of obligations.  Transfer functions are those DOCUMENTED in the class docstrings of
@@ -365,38 +366,44 @@ SPEC = {
     'IntegratorAntiWindup': [T('tf', 'K', 's * T'), S(eqs=[('u', '0')]), R('Integrator', iff=True)],
     'Washout': [T('tf', 's * K', '1 + s * T', nz=['T'], doc='sK/(1+sT); T = 0 is singular (see Props)'), S()],
     'WashoutOrLag': [T('tf', 's * K', '1 + s * T', nz=['T'], flags=WASH, doc='K > 0: washout'),
-                     T('lag_bypass', '1', '1 + s * T', nz=['T'], flags=LAGM, doc='K <= 0: sT becomes 1, low-pass 1/(1+sT)'),
+                     T('lag_bypass', '1', '1 + s * T', nz=['T'], flags=LAGM, eqs=[('K', '0')], doc='K = 0: sT becomes 1, low-pass 1/(1+sT)'),
                      S(), R('Washout', flags=WASH, iff=True)],
     'WashoutOrLagOff': [T('tf', 's * K', '1 + s * T', nz=['T'], flags=WASH), S(), R('Washout', flags=WASH, iff=True)],
     'Lag': [T('tf', 'K', 'D + s * T', doc='K/(D+sT), every T including T = 0'),
             T('T0_bypass', 'K', 'D', eqs=[('T', '0')], doc='zero time constant: static gain K/D'), S(nz=['D'])],
-    'LagFreeze': [T('tf_partial', 'K', 'D + s * T', eqs=[('freeze', '0'), ('D', '1')],
+    'LagFreeze': [T('tf_partial', 'K', 'D + s * T', eqs=[('freeze', '0')], excl=[('D', '1')], key='lagfreeze-ignores-D',
                     doc='DEFECT lagfreeze-ignores-D: documented K/(D+sT) only for D = 1'),
                   T('tf_actual', 'K', '1 + s * T', eqs=[('freeze', '0')], doc='what the code implements: K/(1+sT)'),
                   T('frozen', '0', 'T * s', eqs=[('freeze', '1')], doc='freeze = 1: T dy/dt = 0'),
                   S(doc='own initial value K u / 1 is consistent with the D-less equation')],
     'LagAntiWindup': [T('tf', 'K', 'D + s * T'), S(nz=['D']), R('Lag', iff=True)],
-    'LagAWFreeze': [T('tf_partial', 'K', 'D + s * T', eqs=[('freeze', '0'), ('D', '1')],
+    'LagAWFreeze': [T('tf_partial', 'K', 'D + s * T', eqs=[('freeze', '0')], excl=[('D', '1')], key='lagawfreeze-drops-D',
                       doc='DEFECT lagawfreeze-drops-D: documented K/(D+sT) only for D = 1'),
                     T('tf_actual', 'K', '1 + s * T', eqs=[('freeze', '0')]),
                     T('frozen', '0', 'T * s', eqs=[('freeze', '1')]),
-                    S('steady_partial', eqs=[('D', '1')], doc='DEFECT: initial value K u / D, equation K u - y'),
-                    R('LagAntiWindup', eqs=[('freeze', '0'), ('D', '1')])],
-    'LagRate': [T('tf_partial', 'K', 'D + s * T', eqs=[('D', '1')], doc='DEFECT lagrate-ignores-D: documented K/(D+sT) only for D = 1'),
-                T('tf_actual', 'K', '1 + s * T'), S(), R('Lag', eqs=[('D', '1')])],
+                    S('steady_partial', nz=['D'], excl=[('D', '1')], key='lagawfreeze-drops-D',
+                      doc='DEFECT: initial value K u / D, equation K u - y'),
+                    R('LagAntiWindup', eqs=[('freeze', '0')], excl=[('D', '1')], key='lagawfreeze-drops-D')],
+    'LagRate': [T('tf_partial', 'K', 'D + s * T', excl=[('D', '1')], key='lagrate-ignores-D',
+                  doc='DEFECT lagrate-ignores-D: documented K/(D+sT) only for D = 1'),
+                T('tf_actual', 'K', '1 + s * T'), S(), R('Lag', excl=[('D', '1')], key='lagrate-ignores-D')],
     'LagAntiWindupRate': [T('tf', 'K', 'D + s * T'), S(nz=['D']), R('Lag', iff=True)],
     'Lag2ndOrd': [T('tf', 'K', '1 + s * T1 + s * s * T2', doc='K/(1+sT1+s^2T2), every T1, T2'), S()],
     'LeadLag': [T('tf', 'K * (1 + s * T1)', '1 + s * T2', nz=['T2'], doc='K(1+sT1)/(1+sT2)'),
-                S('steady_partial', eqs=[('K', '1')], doc='DEFECT leadlag-init-ignores-K: y0 = u instead of K u')],
+                S('steady_partial', excl=[('K', '1')], key='leadlag-init-ignores-K',
+                  doc='DEFECT leadlag-init-ignores-K: y0 = u instead of K u')],
     'LeadLagZ': [T('tf', 'K * (1 + s * T1)', '1 + s * T2', nz=['T2'], flags={'B_LT2_z1': 0}, doc='T2 > 0'),
                  T('zero_bypass', 'K', '1', eqs=[('T1', '0'), ('T2', '0')], flags={'B_LT1_z1': 1, 'B_LT2_z1': 1},
                    doc='T1 = T2 = 0 with zero_out: pure gain K'),
-                 S('steady_partial', eqs=[('K', '1')], doc='DEFECT leadlag-init-ignores-K'),
+                 S('steady_partial', excl=[('K', '1')], key='leadlag-init-ignores-K', doc='DEFECT leadlag-init-ignores-K'),
                  R('LeadLag', flags={'B_LT2_z1': 0}, iff=True)],
     'LeadLag2ndOrd': [T('tf', *LL2_TF, nz=['T2'], doc='(1+sT3+s^2T4)/(1+sT1+s^2T2)'), S()],
     'LeadLag2ndOrdZ': [T('tf', *LL2_TF, nz=['T2'], flags={'B_LT2_z1': 0}),
                        T('zero_bypass', '1', '1', eqs=[('T1', '0'), ('T2', '0'), ('T3', '0'), ('T4', '0')],
                          flags={'B_LT1_z1': 1, 'B_LT2_z1': 1, 'B_LT3_z1': 1, 'B_LT4_z1': 1}, doc='all four zero: y = u'),
+                       T('T3_only', '1 + s * T3', '1', eqs=[('T1', '0'), ('T2', '0'), ('T4', '0')], lean=False,
+                         key='leadlag2-LT3-tests-T4', doc='oracle only: LT3 tests T4, so y = u is imposed although T3 != 0 '
+                         '(Lean: Props/C18 leadlag2_LT3_tests_T4)'),
                        S(), R('LeadLag2ndOrd', flags={'B_LT2_z1': 0}, iff=True)],
     'LeadLagLimit': [T('tf', '1 + s * T1', '1 + s * T2', nz=['T2'], flags=IN), S(flags=IN),
                      R('LeadLag', flags=IN, subst={'K': '1'}, doc='inside the limits: the LeadLag equations with K = 1')],
@@ -410,11 +417,11 @@ SPEC = {
     'PITrackAW': [T('tf', *PI_TF, inp='(u - ref)', flags=IN), S(eqs=UREF, flags=IN), R('PIController', flags=IN)],
     'PITrackAWFreeze': [T('tf', *PI_TF, inp='(u - ref)', flags=IN, eqs=[('freeze', '0')]), S(eqs=UREF, flags=IN),
                         R('PITrackAW', eqs=[('freeze', '0')], iff=True)],
-    'PIDController': [T('tf_partial', *PID_TF, inp='(u - ref)', nz=['kd'], eqs=[('Td', 'kd')],
+    'PIDController': [T('tf_partial', *PID_TF, inp='(u - ref)', nz=['kd'], excl=[('Td', 'kd')], key='pid-ignores-Td',
                         doc='DEFECT pid-ignores-Td: Washout(T=kd); documented kp+ki/s+s kd/(1+sTd) only when Td = kd'),
                       T('tf_actual', *PID_ACT, inp='(u - ref)', nz=['kd'], doc='kp + ki/s + s kd/(1 + s kd)'),
                       S(eqs=UREF)],
-    'PIDAWHardLimit': [T('tf_partial', *PID_TF, inp='(u - ref)', nz=['kd'], eqs=[('Td', 'kd')], flags=INHL,
+    'PIDAWHardLimit': [T('tf_partial', *PID_TF, inp='(u - ref)', nz=['kd'], excl=[('Td', 'kd')], key='pidaw-ignores-Td', flags=INHL,
                          doc='DEFECT pid-ignores-Td'),
                        T('tf_actual', *PID_ACT, inp='(u - ref)', nz=['kd'], flags=INHL), S(eqs=UREF, flags=INHL)],
     'PIDTrackAW': [T('tf', *PID_TF, inp='(u - ref)', nz=['Td'], flags=IN, doc='Washout(T=Td): documented PID'),
@@ -560,6 +567,8 @@ def generate(lean_dir, write=True):
         if name not in SPEC:
             continue
         for ob in SPEC[name]:
+            if not ob.get('lean', True):
+                continue
             thm = '%s_%s' % (name, ob['name'])
             hyps = []
             for k, val in ob['flags'].items():
@@ -569,7 +578,7 @@ def generate(lean_dir, write=True):
                     problems.append('%s: flag %s of the specification is not exported by the block' % (thm, k))
                     continue
                 hyps.append('(hf_%s : %s = %d)' % (k, k, val))
-            for a, b in ob['eqs']:
+            for a, b in ob['eqs'] + ob.get('excl', []):
                 if a not in sg['args'] and lean_ident(a) not in sg['args']:
                     problems.append('%s: %s is not an argument of the block' % (thm, a))
                 hyps.append('(he_%s : %s = %s)' % (a, lean_ident(a), b))
